@@ -57,6 +57,8 @@ func (o c12op) String() string {
 		return fmt.Sprintf("v%d.chan(%d).set(%d)", o.V, o.S, o.I)
 	case "appendforeign":
 		return fmt.Sprintf("v%d.append(fresh buffer with another channel count, %d frames: must be refused)", o.V, o.I)
+	case "wstripedforeign":
+		return fmt.Sprintf("v%d.wstriped(one row too many, %d samples each: must be refused)", o.V, o.I)
 	case "drop":
 		return fmt.Sprintf("drop(v%d)", o.V)
 	}
@@ -115,6 +117,9 @@ func (cw *c12world) enumerate(maxViews int, reduced bool, allocShape [2]int) []c
 		}
 		if !reduced {
 			ops = append(ops, c12op{Kind: "appendforeign", V: vi, I: 1 + vi%2})
+			if vi%2 == 0 {
+				ops = append(ops, c12op{Kind: "wstripedforeign", V: vi, I: 1 + vi%3})
+			}
 			ops = append(ops, c12op{Kind: "write", V: vi, I: m.Len + 1})
 			if m.Len%m.C == 0 {
 				ops = append(ops, c12op{Kind: "wstriped", V: vi, I: m.Len / m.C})
@@ -155,6 +160,22 @@ func (cw *c12world) apply(o c12op, c *core.Ctx) (ps []mon.Problem) {
 			c.Obs("writes_visible_through_other_views", 1)
 		}
 		w.SetSample(v, o.I, w.NextStamp())
+	case "wstripedforeign":
+		// a striped write with one row more than the view has channels: refused,
+		// the model does not change
+		dst := w.Views[o.V]
+		lens := make([]int, dst.M.C+1)
+		for i := range lens {
+			lens[i] = o.I
+		}
+		ss := w.T.MakeSS(lens)
+		for ci := range lens {
+			for i := 0; i < o.I; i++ {
+				ss.At(ci).Set(i, w.NextStamp())
+			}
+		}
+		core.Guard(func() { w.T.SelfPair.WriteStriped(ss, dst.B) })
+		c.Obs("striped_writes_with_one_row_too_many_attempted", 1)
 	case "appendforeign":
 		// an Append the library has to refuse (C15 decides whether it panics):
 		// the model does not change
@@ -414,6 +435,9 @@ func runC12Random(c *core.Ctx) {
 				o = c12op{Kind: "appendsample", V: vi}
 			case r < 12:
 				o = c12op{Kind: "appendforeign", V: vi, I: rnd.Range(0, 3)}
+				if rnd.Chance(1, 3) {
+					o = c12op{Kind: "wstripedforeign", V: vi, I: rnd.Range(0, 3)}
+				}
 			case r < 15 && m.Len > 0:
 				o = c12op{Kind: "set", V: vi, I: rnd.Intn(m.Len)}
 			case r < 16:
